@@ -554,6 +554,289 @@ fn any_lits(cx: &mut Ctx, n: u32) -> String {
     out.iter().map(|l| l.to_string()).collect::<Vec<_>>().join(" ")
 }
 
+fn szudzik(a: u64, b: u64) -> u64 {
+    if a < b {
+        b.wrapping_mul(b).wrapping_add(a)
+    } else {
+        a.wrapping_mul(a).wrapping_add(a).wrapping_add(b)
+    }
+}
+
+/// two different ITE keys (f,g,h), (f2,g2,h2) over raw references in 4..=maxraw with equal wrapped
+/// 64-bit hashes, f/g/f2/g2 regular (the form the cache sees): solve (a-a2)(a+a2+1) = h2-h (mod 2^64)
+fn find_ite_twins(rng: &mut crate::gen::Rng, maxraw: u64, ok: &dyn Fn(u64) -> bool) -> Option<([u64; 3], [u64; 3])> {
+    let lim = (maxraw + 1) * (maxraw + 1);
+    for _ in 0..40_000_000u64 {
+        let d = (1u64 << 28) + rng.below((1u64 << 36) - (1u64 << 28));
+        let t = 1 + rng.below((d >> 27).max(1)) as u128;
+        let num = t << 64;
+        let s = ((num + d as u128 - 1) / d as u128) as u128;
+        let r = (d as u128 * s - num) as u64;
+        if r >= maxraw || r == 0 || s >= (1u128 << 40) {
+            continue;
+        }
+        let s = s as u64;
+        if (d + s) % 2 == 0 || s <= d {
+            continue;
+        }
+        let a = (s + d - 1) / 2;
+        let a2 = (s - d - 1) / 2;
+        if a >= lim || a2 >= lim {
+            continue;
+        }
+        let (f, g) = unpair(a);
+        let (f2, g2) = unpair(a2);
+        if [f, g, f2, g2].iter().any(|&x| x % 2 == 1 || x < 4 || x > maxraw || !ok(x)) || f == g || f2 == g2 {
+            continue;
+        }
+        // hash(a,h) - hash(a2,h2) = d*s + h - h2 = r + h - h2 (mod 2^64)
+        for _ in 0..64 {
+            let h = 4 + rng.below(maxraw - r - 4);
+            let h2 = h + r;
+            if h2 > maxraw || !ok(h) || !ok(h2) || [f, g].contains(&(h & !1)) || [f2, g2].contains(&(h2 & !1)) {
+                continue;
+            }
+            debug_assert_eq!(szudzik(szudzik(f, g), h), szudzik(szudzik(f2, g2), h2));
+            if szudzik(szudzik(f, g), h) == szudzik(szudzik(f2, g2), h2) {
+                return Some(([f, g, h], [f2, g2, h2]));
+            }
+        }
+    }
+    None
+}
+
+/// a pair of raw references (first, second) whose pairing p makes p*p + p carry out of 64 bits after
+/// the multiplication wrapped; `both_regular`: the ITE form (f, g regular), otherwise the node form
+/// (low any, high regular)
+fn find_carry_pair(rng: &mut crate::gen::Rng, maxraw: u64, both_regular: bool, ok: &dyn Fn(u64) -> bool) -> Option<(u64, u64)> {
+    let mut budget: u64 = 3_000_000_000;
+    while budget > 0 {
+        let big = (maxraw * 3 / 4 + rng.below(maxraw / 4)) & !1;
+        if !ok(big) {
+            budget -= 1;
+            continue;
+        }
+        let first_big = rng.chance(1, 2);
+        let step = if both_regular || first_big { 2 } else { 1 };
+        let mut small = 4u64;
+        while small < big {
+            let p = if first_big { big * big + big + small } else { big * big + small };
+            if p.wrapping_mul(p).checked_add(p).is_none() && ok(small) {
+                // (first, second): first >= second takes the x*x+x+y branch
+                return Some(if first_big { (big, small) } else { (small, big) });
+            }
+            small += step;
+        }
+        budget = budget.saturating_sub(big / step);
+    }
+    None
+}
+
+/// default-size managers (2^20 cells) holding far more than 2^16 nodes: cell indices and references
+/// beyond 16 and 17 bits, hash arithmetic that wraps, long runs of occupied cells, holes far apart,
+/// diagrams whose nodes are 2^15 and 2^16 cells apart
+pub fn s_huge(cx: &mut Ctx) {
+    let cases = if cx.thorough { 3 } else { 1 };
+    for ci in 0..cases {
+        let nblocks: usize = if cx.thorough { 300 + 350 * ci } else { 280 };
+        const BLOCK: usize = 512;
+        let t_start = std::time::Instant::now();
+        let lap = |what: &str| {
+            if std::env::var("VERIF_TIMING").is_ok() {
+                eprintln!("huge: {} at {:.1}s", what, t_start.elapsed().as_secs_f64());
+            }
+        };
+        cx.ex.begin_case();
+        cx.ex.tt = None;
+        cx.ex.scan_every = 1_000_000_000;
+        cx_op!(cx, "newdefault 20".to_string());
+        let nv = 40u64;
+        let mut vars = vec![];
+        for v in 1..=nv {
+            vars.push(cx_op!(cx, format!("var {}", v)));
+        }
+        // nodes nothing else will refer to, at low cell indices (holes after the collection)
+        let mut orphan_pairs: Vec<(usize, usize)> = vec![];
+        for a in 20..40usize {
+            for b in (a + 1)..40usize {
+                orphan_pairs.push((a, b));
+            }
+        }
+        let mut next_orphan = 0usize;
+        let mut low_orphans = vec![];
+        for _ in 0..64 {
+            let (a, b) = orphan_pairs[next_orphan];
+            next_orphan += 1;
+            low_orphans.push(cx_op!(cx, format!("xor {} {}", vars[a], vars[b])));
+        }
+        // filler: blocks of 512 nodes, variables 40 down to 9 inside a block, children from the same block
+        let mut tops: Vec<usize> = vec![];
+        let mut filler: Vec<usize> = vec![];
+        for _ in 0..nblocks {
+            let mut block: Vec<(usize, u64)> = vec![]; // (handle, variable)
+            for j in 0..BLOCK {
+                let v = nv - (j as u64 * 32 / BLOCK as u64); // 40 .. 9
+                let cands: Vec<usize> = block.iter().filter(|e| e.1 > v).map(|e| e.0).collect();
+                let pickc = |cx: &mut Ctx| -> usize {
+                    if cands.is_empty() || cx.rng.chance(1, 12) {
+                        cx.rng.below(2) as usize // a terminal
+                    } else if cx.rng.chance(1, 2) && cands.len() > 16 {
+                        cands[cands.len() - 1 - cx.rng.below(16) as usize]
+                    } else {
+                        *cx.rng.pick(&cands)
+                    }
+                };
+                let (lo, hi) = (pickc(cx), pickc(cx));
+                if lo == hi {
+                    continue;
+                }
+                let h = cx_op!(cx, format!("node {} {} {}", v, lo, hi));
+                if cx.reply().starts_with("r ") {
+                    block.push((h, v));
+                    filler.push(h);
+                }
+            }
+            if let Some(e) = block.last() {
+                tops.push(e.0);
+            }
+        }
+        let mut high_orphans = vec![];
+        for _ in 0..64 {
+            let (a, b) = orphan_pairs[next_orphan];
+            next_orphan += 1;
+            high_orphans.push(cx_op!(cx, format!("xor {} {}", vars[a], vars[b])));
+        }
+        lap("filler built");
+        cx.op("digest".into());
+        cx.ex.scan(false);
+        lap("first scan");
+        // (a) counting and sizes over diagrams whose nodes lie in blocks far apart
+        let rounds = if cx.thorough { 60 } else { 25 };
+        let top_idx: Vec<u64> = tops.iter().map(|&h| cx.ex.env[h].index() as u64).collect();
+        for k in 0..rounds {
+            // two blocks whose cells are 2^15, 2^16, 2^17 (or a random distance) apart
+            let delta = [1u64 << 15, 1 << 16, 1 << 17, 3 << 15, 0][k % 5];
+            let i = cx.rng.below(tops.len() as u64 / 2) as usize;
+            let j = if delta == 0 {
+                tops.len() - 1 - cx.rng.below(tops.len() as u64 / 3) as usize
+            } else {
+                let want = top_idx[i] + delta;
+                (0..tops.len()).min_by_key(|&j| (top_idx[j] as i64 - want as i64).abs()).unwrap()
+            };
+            if i == j {
+                continue;
+            }
+            let (a, b) = (tops[i], tops[j]);
+            let f = match k % 3 {
+                0 => cx_op!(cx, format!("node 1 {} {}", a, b)),
+                1 => cx_op!(cx, format!("ite {} {} {}", vars[1], b, a)),
+                _ => cx_op!(cx, format!("xor {} {}", a, b)),
+            };
+            if !cx.reply().starts_with("r ") {
+                continue;
+            }
+            cx_op!(cx, format!("satcount {} {}", f, nv + cx.rng.below(30)));
+            cx_op!(cx, format!("size {}", f));
+            cx_op!(cx, format!("onesat {}", f));
+            cx_op!(cx, format!("desc {}", f));
+            if k % 3 == 0 {
+                cx_op!(cx, format!("bracket {}", f));
+                cx_op!(cx, format!("dot {}", f));
+            }
+            if k % 5 == 0 {
+                cx_op!(cx, format!("satcount {} {}", a, nv));
+                cx_op!(cx, format!("not {}", f));
+                let nf = cx.ex.env.len() - 1;
+                cx_op!(cx, format!("satcount {} {}", nf, nv + 1));
+            }
+        }
+        cx.op("digest".into());
+        lap("counting done");
+        // (b) a collection that keeps the whole filler: holes only at the bottom and at the top, a run of
+        // more than 2^16 occupied cells in between; then allocations that must find both groups of holes
+        let mut roots: Vec<String> = vars.iter().map(|h| h.to_string()).collect();
+        roots.extend(filler.iter().map(|h| h.to_string()));
+        cx_op!(cx, format!("gc {}", roots.join(" ")));
+        lap("gc done");
+        cx.op("digest".into());
+        cx.ex.scan(true);
+        lap("scan after gc");
+        for k in 0..100usize {
+            let (a, b) = orphan_pairs[(next_orphan + k) % orphan_pairs.len()];
+            cx_op!(cx, format!("xor {} {}", vars[a], vars[b]));
+            if k % 16 == 15 {
+                cx.op("digest".into());
+            }
+        }
+        cx.op("digest".into());
+        cx.ex.scan(false);
+        lap("holes refilled");
+        // (c) constructed hash events over the references that exist here
+        let mut by_idx: HashMap<u64, usize> = HashMap::new();
+        for &h in filler.iter().chain(vars.iter()) {
+            if cx.ex.live[h] {
+                let r = cx.ex.env[h];
+                if !r.is_negated() {
+                    by_idx.insert(r.index() as u64, h);
+                }
+            }
+        }
+        let maxraw = by_idx.keys().copied().max().unwrap_or(2) * 2 + 1;
+        let have = |raw: u64| by_idx.contains_key(&(raw >> 1));
+        // the handle of a raw reference (a `not` line when it is complemented)
+        let handle_of = |cx: &mut Ctx, raw: u64| -> usize {
+            let h = by_idx[&(raw >> 1)];
+            if raw & 1 == 1 {
+                cx_op!(cx, format!("not {}", h))
+            } else {
+                h
+            }
+        };
+        let twin_rounds = if cx.thorough { 12 } else { 4 };
+        let mut twins_found = 0;
+        for _ in 0..twin_rounds {
+            if let Some((k1, k2)) = find_ite_twins(&mut cx.rng, maxraw, &have) {
+                twins_found += 1;
+                let h1: Vec<usize> = k1.iter().map(|&r| handle_of(cx, r)).collect();
+                let h2: Vec<usize> = k2.iter().map(|&r| handle_of(cx, r)).collect();
+                cx_op!(cx, format!("ite {} {} {}", h1[0], h1[1], h1[2]));
+                cx_op!(cx, format!("ite {} {} {}", h2[0], h2[1], h2[2]));
+                cx_op!(cx, format!("ite {} {} {}", h1[0], h1[1], h1[2]));
+                cx_op!(cx, format!("itec {} {} {}", h1[0], h1[1], h1[2]));
+                cx_op!(cx, format!("itec {} {} {}", h2[0], h2[1], h2[2]));
+                // both triples as the two cofactors of one query
+                let f = cx_op!(cx, format!("node 1 {} {}", h2[0], h1[0]));
+                let g = cx_op!(cx, format!("node 1 {} {}", h2[1], h1[1]));
+                let h = cx_op!(cx, format!("node 1 {} {}", h2[2], h1[2]));
+                cx_op!(cx, format!("itec {} {} {}", f, g, h));
+                cx_op!(cx, format!("ite {} {} {}", f, g, h));
+            }
+        }
+        lap("twins done");
+        let carry_rounds = if cx.thorough { 6 } else { 2 };
+        let mut carries = 0;
+        for _ in 0..carry_rounds {
+            if let Some((f, g)) = find_carry_pair(&mut cx.rng, maxraw, false, &have) {
+                carries += 1;
+                let (hf, hg) = (handle_of(cx, f), handle_of(cx, g));
+                let hh = *cx.rng.pick(&tops);
+                cx_op!(cx, format!("ite {} {} {}", hf, hg, hh));
+                cx_op!(cx, format!("and {} {}", hf, hg));
+            }
+            if let Some((lo, hi)) = find_carry_pair(&mut cx.rng, maxraw, true, &have) {
+                carries += 1;
+                let (hlo, hhi) = (handle_of(cx, lo), handle_of(cx, hi));
+                cx_op!(cx, format!("node {} {} {}", 1 + cx.rng.below(8), hlo, hhi));
+            }
+        }
+        cx.op("digest".into());
+        cx.ex.scan(false);
+        lap("carries done");
+        cx.notes.push(format!("case {}: {} filler nodes, {} ITE hash twins, {} carrying keys; largest reference {}", ci, filler.len(), twins_found, carries, maxraw));
+        cx.end();
+    }
+}
+
 /// boundary values of the variable type (`u32`; literals are `i32`)
 const VAR_POOL: &[u64] = &[
     1, 2, 3, 7, 1 << 15, 1 << 16, (1 << 16) + 1, (1 << 30) - 1, 1 << 30, (1 << 30) + 1, (1 << 31) - 2, (1 << 31) - 1, 1 << 31, (1 << 31) + 1, (1 << 31) + 5,
@@ -1850,6 +2133,7 @@ pub fn run_suite(name: &str, cx: &mut Ctx) -> bool {
         "export" => s_export(cx),
         "table" => s_table(cx),
         "hugevar" => s_hugevar(cx),
+        "huge" => s_huge(cx),
         "tnode" => s_tnode(cx),
         "gcwrap" => s_gcwrap(cx),
         "cache" => s_cache(cx),
@@ -1862,5 +2146,5 @@ pub fn run_suite(name: &str, cx: &mut Ctx) -> bool {
 }
 
 pub const ALL_SUITES: &[&str] = &[
-    "mk", "ite3", "conn", "hist", "gc_chain", "gc_reuse", "big", "soak", "memo", "subst", "compose", "constrain", "restrict", "itec", "count", "export", "table", "cache", "kcache", "raw", "eda", "hugevar", "gcwrap", "tnode",
+    "mk", "ite3", "conn", "hist", "gc_chain", "gc_reuse", "big", "soak", "memo", "subst", "compose", "constrain", "restrict", "itec", "count", "export", "table", "cache", "kcache", "raw", "eda", "hugevar", "gcwrap", "tnode", "huge",
 ];
